@@ -51,6 +51,18 @@ structure LookupFacts where
   notFoundIsErr : Bool
   deriving DecidableEq, Repr, Inhabited
 
+/-- what the fact translator reads off the body of `SetToken` (pass `settoken`), the only write path
+    behind MsgRegister: the fields of entries ALREADY stored that it reads, the number of assignments
+    to fields of the INCOMING entry, whether the incoming entry is stored verbatim at the index found
+    (`wl.Entries[i] = entry`) and appended verbatim otherwise.  The model `setToken` below is the
+    function with facts `⟨["Denom"], 0, true, true⟩`: replace, never merge. -/
+structure SetTokenFacts where
+  oldFieldsRead : List String
+  incomingMutations : Nat
+  replacesVerbatim : Bool
+  appendsVerbatim : Bool
+  deriving DecidableEq, Repr, Inhabited
+
 /-- `CheckEntryPermissions(entry, required)`: every required permission is listed -/
 def checkPerms (e : Entry) (req : List Perm) : Bool := req.all (fun p => e.perms.contains p)
 
